@@ -51,14 +51,14 @@ CLAIMED = {
     "C04": ("batch", "PBT with a validity predicate on the generated files: gofmt fixpoint, batch compile, go vet, package init, source inspection of methods vs. computed label scopes; round-robin over all 64 flag combinations",
             "Bounded generated search over grammars with adversarial rule/label names (plus one grammar with every accepted Unicode class) x all 64 flag combinations x receiver names; each generated file must be gofmt-formatted, compile, vet clean, initialise, and carry exactly one method per code block with exactly the labels in scope.",
             "Trusted: gspec's label-scope analysis (the documented rule as the builder implements it), the regex-based method extraction. Known findings KF-C04-FUNCNAME / KF-C04-OPTSCOPE are recognised on the failure record and counted.", "DESIGN.md 3/C04"),
-    "C07": ("tool", "two-sided PBT with an explicit gap: re-entry witness from the reference interpreter => must reject; acyclic over-approximated first-graph => must accept",
-            "Bounded generated search over arbitrary rule-reference graphs with references behind every kind of nullable prefix; in-process builds must fail with the left-recursion error exactly when a concrete re-entry witness exists, and must succeed when no first-cycle exists; undecided grammars are counted, never reported.",
-            "Trusted: refpeg's re-entry detection, gspec's textbook nullable/first analysis. Known findings KF-C07-SHORTCIRCUIT / KF-C07-THROW excluded by predicates over the grammar.", "DESIGN.md 3/C07"),
+    "C07": ("tool", "two-sided PBT with an explicit gap (re-entry witness from the reference interpreter => must reject; acyclic over-approximated first-graph => must accept) plus model-based PBT of accepted grammars' parsers under an expression budget derived from the reference interpreter",
+            "Static half: bounded generated search over arbitrary rule-reference graphs with references behind every kind of nullable prefix; in-process builds must fail with the left-recursion error exactly when a concrete re-entry witness exists, and must succeed when no first-cycle exists; undecided grammars are counted, never reported. Run-time half: accepted grammars of five profiles generated by the command under seven flag sets without -support-left-recursion; a parser that needs more than 8N+10000 expression evaluations where the reference needs N, exhausts the stack or hangs is reported as recursing without bound.",
+            "Trusted: refpeg's re-entry detection and evaluation count, gspec's textbook nullable/first analysis. Known findings KF-C07-SHORTCIRCUIT / KF-C07-THROW excluded by predicates over the grammar.", "DESIGN.md 3/C07 and 10.1"),
     "C08": ("batch", "model-based PBT: left-recursive grammars evaluated by their denotation in the reference interpreter vs. generated parsers (plain, Memoize, -optimize-parser)",
             "Bounded generated search over nested direct / single-cycle indirect left-recursive grammars x inputs; termination, success, consumed prefix and left-nested value against the denotation; errors/state of the final non-extending attempt not retained (when every LR rule is invoked at most once per offset).",
             "Trusted: refpeg's denotational evaluation of LR rules. Known finding KF-C08-NONLEADER excluded by a predicate over the grammar.", "DESIGN.md 3/C08"),
-    "C18": ("batch", "stress PBT under the race detector: rapid-drawn job sets run alone and then concurrently from a barrier, each concurrent result vs. its own sequential result",
-            "Bounded generated search over stateful/memoizing/left-recursive grammars x job sets (2-32) x GOMAXPROCS; every concurrent result equals the sequential one and the race detector stays silent. Interleavings are sampled, not enumerated.",
+    "C18": ("batch", "stress PBT under the race detector: rapid-drawn job sets run concurrently from a barrier (cold: before any sequential call) and then alone, each concurrent result vs. its own sequential result",
+            "Bounded generated search over stateful/memoizing/throw-recover/utf8/left-recursive grammars x job sets (2-32) x GOMAXPROCS; every concurrent result equals the sequential one and the race detector stays silent. Interleavings are sampled, not enumerated.",
             "Trusted: the Go race detector (no false positives); schedule coverage is whatever the stress reaches (overlap is measured).", "DESIGN.md 3/C18"),
     "C19": ("tool", "metamorphic PBT: K repeated in-process generations (map iteration order re-randomised each time) and repeated runs of the command must be byte-identical",
             "Bounded generated search over grammars with several cycles / leader candidates / mutually nullable rules / optimizer bait x flag sets; 12 repeated builds in one process and 3 runs of the command give identical bytes or the identical diagnostic.",
